@@ -11,6 +11,8 @@ use crate::u256::U;
 pub enum KeyKind {
     Address,
     Word,
+    /// a small literal key (m[5]): the key is a small constant while the base slot may be huge
+    Const,
 }
 
 #[derive(Clone, Debug, PartialEq, Eq, Hash)]
@@ -124,6 +126,7 @@ fn mapping_key(slot: U, keys: &[KeyKind], sp: &Spelling, first_arg: usize) -> (V
         let key = match k {
             KeyKind::Address => and_mask(addr_mask(), sp, arg(first_arg + i)),
             KeyKind::Word => arg(first_arg + i),
+            KeyKind::Const => vec![p(5 + i as u64)],
         };
         if i == 0 {
             if sp.mask_first {
